@@ -217,3 +217,38 @@ PROPS["C05"] = dict(
     ],
     assumptions=COMMON_ASSUMPTIONS + ["running balances stay within [0, 2^64) (sum of all satoshi <= 21e14; no address spends more than it holds)"],
 )
+
+PROPS["C16"] = dict(
+    verus_units=["fees"],
+    technique="Verus contracts on charge_cycles / verify_has_enough_cycles and on the charging code of all five endpoints; fee tables vs client constants as postconditions of the client's cost_* functions",
+    level_text="unbounded deductive proof (all fee configurations with maximum >= base, all instruction counts, all payload lengths) that: the cycles accepted are "
+               "base + min(instructions/10 x rate, maximum - base) for get_utxos / get_block_headers on success and only the base on a request-level error, the flat fee for "
+               "get_balance / fee percentiles, base + per_byte x length for send_transaction, nothing for query variants; a call with less than the maximum never returns "
+               "(refused before anything is charged); and every cost_* function of ic-cdk-bitcoin-canister returns at least the canister's default maximum "
+               "(resp. base + per_byte x length for every length) for the same network",
+    level_note="the IC cycles interface and the thread-local state are explicit values (rule R7, reported); msg_cycles_accept/available semantics assumed; "
+               "instruction counter arbitrary; derive(Default) for Fees is all-zero (regtest); metrics observation statements removed (R1)",
+    explanation="Fees::mainnet/testnet bodies are emitted a second time as spec functions (also_spec) so that the client-side postconditions can refer to them; "
+                "get_utxos_private, get_block_headers, get_balance(_query), send_transaction are whole-function extractions, get_current_fee_percentiles a prefix slice.",
+    unverified_links=[
+        "ic0.msg_cycles_accept / msg_cycles_available (IC system API)",
+        "State::new choosing Fees::mainnet / Fees::testnet / Fees::default per network (by inspection)",
+    ],
+    assumptions=COMMON_ASSUMPTIONS + ["fee configuration: maximum >= base, per-ten-instructions rate < 2^64, send_transaction base < 2^127 and per_byte < 2^32"],
+)
+
+PROPS["C19"] = dict(
+    verus_units=["fees"],
+    replays=[_rp("f2_send_transaction_rejects_trailing_bytes", "F2", "quick")],
+    technique="Verus contract on the whole body of send_transaction (sync, state-passing extraction) + concrete replay of the trailing-bytes payload",
+    level_text="unbounded deductive proof that send_transaction returns only if API access is enabled and the network matches, returns Ok iff the payload is exactly "
+               "one transaction encoding, and then (and only then) increments the counter by one and forwards (block source, network, payload) unchanged; "
+               "otherwise MalformedTransaction with nothing forwarded or counted",
+    level_note="rust-bitcoin's decoder is uninterpreted: bitcoin::consensus::deserialize is assumed to accept exactly the inputs that are one whole transaction "
+               "encoding (it rejects unconsumed data), consensus_decode on a slice to accept any input with such a prefix; which byte strings those are is the dependency's business; "
+               "async/await and the inter-canister call are replaced by an explicit outbox (R7)",
+    explanation="if the code goes back to consensus_decode(&mut slice) without checking the remainder, r.is_ok() <==> is_tx_encoding(payload) is no longer provable "
+                "and the F2 replay fails.",
+    unverified_links=["rust-bitcoin Transaction decoding", "runtime::call_send_transaction_internal and the await point"],
+    assumptions=COMMON_ASSUMPTIONS,
+)
